@@ -4033,3 +4033,33 @@ def t_decl_size_kept(facts, res, tier):
                     res.fail("T-DECL-SIZE-KEPT:compile_var_decl:%s" % vec, facts.where(fn, s), "compile_var_decl replaces the declared size by `%s.len()` without having compared the two: an initialiser shorter (or longer) than the declared array silently changes its size" % vec)
     if n == 0:
         raise AnchorMissing("compile_var_decl: no `size = Some(<v>.len())` found")
+
+
+@rule("T-TMP-CLAIM", floor=12,
+      text="a generator function that parks a value in cctmp and answers `ExprType::Tmp(..)` raises `tmp_in_use` before it returns: on the path of "
+           "every `Ok(ExprType::Tmp(..))` that follows a `STA cctmp` emitted in the same function, `self.tmp_in_use = true` has been assigned (or "
+           "the answer depends on a flag set together with it).  The caller reads `tmp_in_use` to decide whether cctmp is free: an unclaimed "
+           "temporary is overwritten by the next operand that needs one")
+def t_tmp_claim(facts, res, tier):
+    from scopes import scoped
+    n = 0
+    for fn in genmodel.gen_fns(facts):
+        body_text = expr_text(fn["body"]).replace(" ", "")
+        if "ExprType::Tmp(" not in body_text:
+            continue
+        for node, env, doms in scoped(fn):
+            t = expr_text(node).replace(" ", "")
+            if not (node.get("k") == "call" and t.startswith("Ok(ExprType::Tmp(")):
+                continue
+            stm = [d[1] for d in doms if d[0] == "stmt"]
+            stored = any(_self_call(x, ("asm",)) and len(x.get("args", [])) > 1 and expr_text(x["args"][0]).replace(" ", "").endswith("STA") and "ExprType::Tmp(" in expr_text(x["args"][1]).replace(" ", "") for s in stm for x in walk(s))
+            if not stored:
+                continue
+            n += 1
+            claimed = any(x.get("k") == "assign" and expr_text(x["l"]).replace(" ", "") == "self.tmp_in_use" and expr_text(x["r"]).strip() == "true" for s in stm for x in walk(s))
+            key = "T-TMP-CLAIM:%s" % fn["name"]
+            res.inst(key, True, {"function": fn["name"], "where": facts.where(fn, node), "claimed": claimed})
+            if not claimed:
+                res.fail(key, facts.where(fn, node), "%s stores a value in cctmp and answers ExprType::Tmp without raising `tmp_in_use`: the caller takes cctmp for free and parks the next operand over it" % fn["name"])
+    if n == 0:
+        raise AnchorMissing("no function answering ExprType::Tmp after a store to cctmp")
